@@ -294,11 +294,99 @@ def concurrent_roundtrips(ctx, alpha, seed):
                       {"kind": "int", "value": err[1], "class": "concurrent"})
 
 
+class Masked(str):
+    """a str subclass whose str() is not its value (the value is what counts: it IS the string)"""
+
+    def __new__(cls, value, shown):
+        obj = super().__new__(cls, value)
+        obj.shown = shown
+        return obj
+
+    def __str__(self):
+        return self.shown
+
+    def __format__(self, spec):
+        return self.shown
+
+
+def str_subclass_cases(ctx, alpha, rng):
+    u = uuid.UUID(int=rng.getrandbits(128))
+    short, canon = model_encode(u.int, alpha), str(u)
+    case = {"kind": "str", "value": short, "class": "str_subclass"}
+    for value, shown, want in ((short, "<hidden>", u), (canon, "***", u), ("garbage", short, None),
+                               ("", canon, None)):
+        ctx.evaluated()
+        ctx.count("str_subclass_arguments")
+        try:
+            got = short_uuid.uuid_from_str(Masked(value, shown))
+        except ValueError:
+            got = None
+        except Exception as err:
+            ctx.violation("wrong-exception-type", ["uuid_from_str", type(err).__name__, str(err)[:80]], case)
+            continue
+        if got != want:
+            ctx.violation("valid-string-rejected" if want is not None else "invalid-string-accepted",
+                          ["uuid_from_str", "str subclass with value %r shown as %r" % (value, shown), str(got)], case)
+
+
+CHILD = r"""
+import json, sys
+from ak import short_uuid
+out = []
+for s in json.load(sys.stdin):
+    for f in (short_uuid.uuid_from_short_str, short_uuid.uuid_from_str):
+        try:
+            out.append("A:" + str(f(s)))
+        except ValueError:
+            out.append("V")
+        except Exception as err:
+            out.append("E:" + type(err).__name__)
+print(json.dumps(out))
+"""
+
+
+def optimized_interpreter_cases(ctx, alpha, rng):
+    """the same rejections in an interpreter started with -O (assert statements are compiled away there)"""
+    import json
+    import os
+    import subprocess
+    import sys
+    u = uuid.UUID(int=rng.getrandbits(128))
+    short = model_encode(u.int, alpha)
+    strings = ["", short[:-1], short + alpha[0], short, str(u), alpha[0] * 21, alpha[0] * 23, short[:10], "x" * 22]
+    for flag in ("-O", "-OO"):
+        ctx.evaluated()
+        env = dict(os.environ, PYTHONPATH=vf.REPO)
+        proc = subprocess.run([sys.executable, flag, "-c", CHILD], input=json.dumps(strings), capture_output=True,
+                              text=True, timeout=60, env=env)
+        if proc.returncode != 0:
+            ctx.inconclusive_note("optimized child interpreter failed: " + proc.stderr[-200:])
+            return
+        res = json.loads(proc.stdout)
+        ctx.count("strings_judged_in_an_optimized_interpreter", len(strings))
+        for k, s in enumerate(strings):
+            for j, fname in enumerate(("uuid_from_short_str", "uuid_from_str")):
+                want = model_valid(s, alpha)
+                if fname == "uuid_from_short_str" and not (len(s) == 22 and all(c in alpha for c in s)):
+                    want = None
+                got = res[2 * k + j]
+                exp = "V" if want is None else "A:" + str(want)
+                if got != exp:
+                    mech = "invalid-string-accepted" if want is None and got.startswith("A:") else \
+                        "wrong-exception-type" if got.startswith("E:") else "valid-string-rejected"
+                    ctx.violation(mech, [fname, s, got, "interpreter flag " + flag],
+                                  {"kind": "str", "value": s, "class": "optimized_interpreter"})
+
+
 def run_shard(ctx):
     alpha = alphabet()
     seen = {}
     ctx.evaluated()
     concurrent_roundtrips(ctx, alpha, f"{ctx.seed}/{ctx.shard}")
+    for k in range(20):
+        str_subclass_cases(ctx, alpha, ctx.rng(10 ** 6 + k))
+    if ctx.shard == 0:
+        optimized_interpreter_cases(ctx, alpha, ctx.rng(10 ** 6 + 99))
     if ctx.shard == 0:
         # deterministic boundary sweep
         for k in range(23):
@@ -323,6 +411,15 @@ def run_shard(ctx):
 def replay(ctx, case):
     alpha = alphabet()
     ctx.evaluated()
+    if case.get("class") == "str_subclass":
+        import random
+        for k in range(20):
+            str_subclass_cases(ctx, alpha, random.Random(k))
+        return
+    if case.get("class") == "optimized_interpreter":
+        import random
+        optimized_interpreter_cases(ctx, alpha, random.Random(0))
+        return
     if case["kind"] == "int":
         check_int(ctx, int(case["value"]), alpha, {}, case["class"])
     else:
